@@ -47,6 +47,24 @@ chk("C11", "venum",
     "Trusted: crypto/x509 verification; encoding/asn1 for building test extensions. Only IPv4 blocks exist in the code; IPv6 blocks are out of scope.",
     "DESIGN.md 3 C11")
 
+chk("C10", "venum",
+    "exhaustive enumeration of key algorithms/sizes x issuing paths and exhaustive bounded mutation (every truncation, three substitutions per byte, DER length octets +-1, SSH tag x blob cross product) of valid seeds on the real handlers with a panic-recording wrapper",
+    "48 RSA keys (modulus 512..4096 bits incl. 2040/2041/2047 x exponents 1,3,17,65535,65537,2^31-1), P-224/256/384/521, Ed25519, DSA, X25519 and an RSA-PSS-OID key are submitted, in the encoding each path takes, to all six issuing paths (ssh, x509, x509-kubernetes, automation mint, automation refresh, cloud-role via a fake STS); signed => strong key, weak/unknown => 4xx. For valid seeds of every parser entry (SSH key line, PEM and base64url PKIX keys, session cookie, OIDC code, access token, CLI token, U2F and WebAuthn JSON bodies) every truncation length and three substitutions per byte position, every DER length octet +-1, the SSH algorithm-tag x key-blob cross product and every SSH wire-length field are delivered to every route that parses that input: no recovered panic, nothing weak certified. Address-extension corruption is exercised by C11.",
+    "Trusted: Go crypto parsers; single-position mutations only.",
+    "DESIGN.md 3 C10")
+
+chk("C19", "venum",
+    "exhaustive enumeration of client configurations (key preference x server policy x agent mode x addGroups x run) running the real client code against the real server handlers in a child process, with every transmitted byte recorded at two layers",
+    "For every point of key preference {rsa,p256,p384} x server certificate policy {password, TOTP} x agent {present, absent, refusing lifetimes} x addGroups x {first run, replacement run} the client's real setupCerts is run (HID stubbed = no token attached) against a keymasterd harness child serving the real mux over TLS; every outgoing byte is recorded at the RoundTripper and below TLS at the socket; no private component of any generated key (RSA d,p,q,dp,dq,qinv; EC D; Ed25519 seed) may occur raw or in any base64/hex/PEM/percent decoding of the traffic; private files 0600 under 0700 directories; the agent holds exactly one entry per label after the second run; every mandatory certificate request is answered 200.",
+    "Trusted: the leak detectors (self-tested with planted leaks each run). U2F/VIP/Okta/webauth client paths need devices or services not modelled and are out of scope (DESIGN.md).",
+    "DESIGN.md 3 C19")
+
+chk("C20", "vexplore",
+    "explicit-state / exhaustive history enumeration on the real notifier (through ServeHTTP with hijacked connections), the real monitord receive/notify functions and the real eventrecorder internals, each against a plain-list reference model; crash points of a save enumerated at every prefix",
+    "Three parts merged into one evidence file. (1) keymasterd: all histories up to depth 2 (thorough 3) over 12 operations (all seven issuing paths, API/web login, VIP OTP, service-provider login, a refused request) x 7 behaviours of a second subscriber (none, prompt, stalled, stalls after 1/16/17, disconnects), with a prompt subscriber attached through the real EventNotifier.ServeHTTP: after each handler returns a marker is published and every required event must precede it in the FIFO stream with byte-identical certificate data; 0-subscriber and 40-issuance stalled-subscriber runs. (2) eventrecorder: BFS with canonical-state deduplication over record/tick/expire/save+reload on the real internals against a list model (depth 5 full alphabet + depth 7 narrow), and every prefix of the temp file / truncation of the target as crash points of saveEvents. (3) monitord: all sequences up to length 4 over 31 well-formed and malformed wire events through the real receiveV0/notify.",
+    "Trusted: 60 s watchdog for 'handler blocked'. The dispatch loop of cmd/keymaster-eventmond/main() is not callable and is out of scope.",
+    "DESIGN.md 3 C20")
+
 NOT_YET = {
 }
 
